@@ -191,7 +191,9 @@ def run_case(work, idx, c):
         args = ["-l", lang] + (["-c", cfg_path] if by_flag else []) + opts + ["-o", out, src]
         r = cli.run_cli(args, cwd=cwd, timeout=20)
         if r["exit"] != "ok":
-            raise ToolError(f"typeshare failed in a C20 cell ({lang}): {r['stderr'][-300:]}")
+            events.append(({"ev": "run", "cli": full(c["cli"]), "file": full(c["file"]), "lang": lang, "obs": full({s2: "<run failed>" for s2 in EXPOSES.get(lang, [])}),
+                            "texp": texp(lang, c.get("tables", "basic")), "tobs": {"run": "failed"}}, {"kind": "run", "lang": lang, "disc": disc, "cli": c["cli"], "file": c["file"], "tables": c.get("tables", "basic")}))
+            continue
         obs, tobs = observe(lang, open(out).read(), profile)
         events.append(({"ev": "run", "cli": full(c["cli"]), "file": full(c["file"]), "lang": lang, "obs": full(obs),
                         "texp": texp(lang, profile), "tobs": tobs}, {"kind": "run", "lang": lang, "disc": disc, "cli": c["cli"], "file": c["file"], "tables": profile}))
